@@ -179,13 +179,61 @@ pub fn run(tier: &str, seed: u64, out: &str) {
             break;
         }
     }
+    // fresh instances handed straight to several threads: the very first uses of an instance race each other (keys come
+    // from another instance); every call must return what it returns alone - no panic, round trips, distinct secrets
+    {
+        let admin = Covercrypt::default();
+        let (mut msk, _) = admin.setup().unwrap();
+        msk.access_structure.add_anarchy("D".into()).unwrap();
+        msk.access_structure.add_attribute(QualifiedAttribute::new("D", "A"), EncryptionHint::Hybridized, None).unwrap();
+        let mpk = admin.update_msk(&mut msk).unwrap();
+        let pol = AccessPolicy::parse("D::A").unwrap();
+        let usk = admin.generate_user_secret_key(&mut msk, &pol).unwrap();
+        let (mpkb, uskb) = (mpk.serialize().unwrap().to_vec(), usk.serialize().unwrap().to_vec());
+        let rounds = if tier == "thorough" { 400 } else { 40 };
+        let mut all: std::collections::HashSet<Vec<u8>> = Default::default();
+        'rounds: for round in 0..rounds {
+            let cc = Arc::new(Covercrypt::default());
+            let barrier = Arc::new(std::sync::Barrier::new(8));
+            let mut hs = vec![];
+            for _ in 0..8 {
+                let (cc, barrier, mpkb, uskb, pol) = (cc.clone(), barrier.clone(), mpkb.clone(), uskb.clone(), pol.clone());
+                hs.push(std::thread::spawn(move || {
+                    let mpk = MasterPublicKey::deserialize(&mpkb).unwrap();
+                    let usk = cosmian_cover_crypt::UserSecretKey::deserialize(&uskb).unwrap();
+                    barrier.wait();
+                    let (s, x) = cc.encaps(&mpk, &pol).unwrap();
+                    let ok = cc.decaps(&usk, &x).unwrap() == Some(s.clone());
+                    (ok, s.to_vec())
+                }));
+            }
+            for h in hs {
+                total_calls += 2;
+                match h.join() {
+                    Ok((ok, s)) => {
+                        if !ok || !all.insert(s) {
+                            fails.push(serde_json::json!({"kind": "impl-oracle", "oracle": "concurrent-result", "tags": ["fresh-instance"],
+                                "what": format!("round {round}: a call on a freshly created instance shared by 8 threads did not open its own encapsulation, or returned a secret already returned"), "lines": [], "case": "fresh instance"}));
+                            break 'rounds;
+                        }
+                    }
+                    Err(p) => {
+                        let msg = p.downcast_ref::<String>().cloned().or_else(|| p.downcast_ref::<&str>().map(|s| s.to_string())).unwrap_or_default();
+                        fails.push(serde_json::json!({"kind": "impl-oracle", "oracle": "concurrent-result", "tags": ["fresh-instance", "panic"],
+                            "what": format!("round {round}: a call on a freshly created instance shared by 8 threads panicked ({}): it does not return what it returns alone", msg.chars().take(160).collect::<String>()), "lines": [], "case": "fresh instance"}));
+                        break 'rounds;
+                    }
+                }
+            }
+        }
+    }
     let j = serde_json::json!({
         "property": "C19", "tier": tier, "seed": seed, "config": crate::util::CFG, "cases": configs.len(), "lines": total_calls,
         "distinct_traces": configs.len(), "distinct_lines": total_calls, "op_hist": {"api calls": total_calls}, "status_hist": {}, "err_kind_hist": {},
         "soft_kind_mismatch": 0, "matrix_cells": 0, "matrix_open": 0,
         "samples": [{"threads": configs, "iterations_per_configuration": iters}],
         "mismatches": [],
-        "extra": {"rule": format!("one shared Covercrypt instance used by 2, 4, 8 and 16 threads ({iters} iterations per configuration) for encapsulation, decapsulation (authorised and unauthorised), PKE encryption / decryption, header generation / decryption, key generation, rekey, refresh, prune on thread-local key objects, while two more threads draw through the public accessor Covercrypt::rng() in very short critical sections; every result is compared with what the call returns alone (round trips, None for unauthorised); a watchdog bounds the whole run; support for the part of C19 the model cannot exhibit; distinct = API calls made (each with fresh randomness)"),
+        "extra": {"rule": format!("one shared Covercrypt instance used by 2, 4, 8 and 16 threads ({iters} iterations per configuration) for encapsulation, decapsulation (authorised and unauthorised), PKE encryption / decryption, header generation / decryption, key generation, rekey, refresh, prune on thread-local key objects, while two more threads draw through the public accessor Covercrypt::rng() in very short critical sections; then fresh instances whose very first uses race each other on 8 threads released together; every result is compared with what the call returns alone (round trips, None for unauthorised); a watchdog bounds the whole run; support for the part of C19 the model cannot exhibit; distinct = API calls made (each with fresh randomness)"),
             "exhaustive": false, "per_line": true, "oracle_failures": fails, "oracle_checked": total_calls, "campaign": "C19", "wall_s": t0.elapsed().as_secs_f64()},
     });
     std::fs::write(out, serde_json::to_string_pretty(&j).unwrap()).unwrap();
